@@ -189,7 +189,8 @@ pub open spec fn extend_post<M: Math, H: Hamiltonian<M>, C: Collector<M, H::Poin
             || (tview(t) == s && n0 + 1 <= n1 <= n0 + pow2(d) && d > 0),
         // divergence: the old tree is returned untouched
         ExtendResult::Diverging(t, _) => tview(t) == s && n0 + 1 <= n1 <= n0 + pow2(d),
-        ExtendResult::Err(_) => n0 + 1 <= n1 <= n0 + pow2(d),
+        // (an unrecoverable error aborts the transition; the failing step itself is not counted)
+        ExtendResult::Err(_) => n0 <= n1 <= n0 + pow2(d),
     }
 }
 
